@@ -173,7 +173,8 @@ func instrList(list []ast.Stmt) []ast.Stmt {
 
 			continue
 		case *ast.SendStmt:
-			out = append(out, yieldStmt(exprStr(v.Chan)+"<-"), s)
+			// ch <- v  ->  cooperative send (a send that can never proceed parks the thread as blocked)
+			out = append(out, sendStmt(v))
 
 			continue
 		case *ast.DeferStmt:
@@ -227,6 +228,9 @@ func instrList(list []ast.Stmt) []ast.Stmt {
 				// db.Close() in the header of an if / switch / return: parked while a read transaction is open
 				out = append(out, call("CloseWait", lit("db.Close")))
 			}
+			for _, l := range killOps(hn) {
+				out = append(out, call("KillPoint", lit(l)))
+			}
 			for _, l := range syncOps(hn) {
 				out = append(out, yieldStmt(l))
 			}
@@ -236,6 +240,62 @@ func instrList(list []ast.Stmt) []ast.Stmt {
 	}
 
 	return out
+}
+
+// killOps: the bbolt calls made inside a write transaction (and the call of cleanup): kill points of the
+// crash family, not scheduling points.
+func killOps(e ast.Node) (labels []string) {
+	ast.Inspect(e, func(n ast.Node) bool {
+		if _, ok := n.(*ast.FuncLit); ok {
+			return false
+		}
+		if c, ok := n.(*ast.CallExpr); ok {
+			if sel, ok := c.Fun.(*ast.SelectorExpr); ok {
+				switch sel.Sel.Name {
+				case "NextSequence", "SetSequence", "Put", "Delete", "CreateBucketIfNotExists":
+					if r := exprStr(sel.X); r == "bucket" || r == "tx" || r == "b" {
+						labels = append(labels, "tx:"+sel.Sel.Name)
+					}
+				case "cleanup":
+					labels = append(labels, "tx:cleanup")
+				}
+			}
+		}
+
+		return true
+	})
+
+	return labels
+}
+
+// sendStmt builds { verifV := v; verifsched.Send("ch<-", func() bool { select { case ch <- verifV: return true; default: return false } }, func() { ch <- verifV }) }
+func sendStmt(v *ast.SendStmt) ast.Stmt {
+	ch, val := exprStr(v.Chan), exprStr(v.Value)
+	src := fmt.Sprintf("package p\nfunc _() {\n{\nverifV := %s\nverifsched.Send(%q, func() bool {\nselect {\ncase %s <- verifV:\nreturn true\ndefault:\nreturn false\n}\n}, func() { %s <- verifV })\n}\n}\n", val, ch+"<-", ch, ch)
+	f, err := parser.ParseFile(token.NewFileSet(), "", src, 0)
+	if err != nil {
+		fmt.Fprintln(os.Stderr, "instrument: send:", err)
+		os.Exit(3)
+	}
+	blk := f.Decls[0].(*ast.FuncDecl).Body.List[0]
+	// drop the positions of the snippet (they belong to another file set)
+	ast.Inspect(blk, func(n ast.Node) bool { return true })
+
+	return stripPos(blk).(ast.Stmt)
+}
+
+// stripPos re-parses nothing: it prints the node and parses it again inside the main file set, so that
+// positions are consistent when the file is printed.
+func stripPos(n ast.Node) ast.Node {
+	var b bytes.Buffer
+	format.Node(&b, token.NewFileSet(), n)
+	f, err := parser.ParseFile(fset, "", "package p\nfunc _() {\n"+b.String()+"\n}\n", 0)
+	if err != nil {
+		fmt.Fprintln(os.Stderr, "instrument: reparse:", err)
+		os.Exit(3)
+	}
+
+	return f.Decls[0].(*ast.FuncDecl).Body.List[0]
 }
 
 func containsDBClose(n ast.Node) bool {
@@ -291,7 +351,40 @@ func instrFuncLits(n ast.Node) {
 	})
 }
 
+// instrumentBbolt writes a copy of bbolt's tx.go with kill points inside Commit: before the dirty pages are
+// written, between the data pages and the meta page, and after the meta page.
+func instrumentBbolt(dir, out string) {
+	src, err := os.ReadFile(filepath.Join(dir, "tx.go"))
+	if err != nil {
+		fmt.Fprintln(os.Stderr, "instrument:", err)
+		os.Exit(3)
+	}
+	s := string(src)
+	rep := func(old, new string) {
+		if strings.Count(s, old) != 1 {
+			fmt.Fprintf(os.Stderr, "instrument: bbolt tx.go: %q found %d times, expected once\n", old, strings.Count(s, old))
+			os.Exit(3)
+		}
+		s = strings.Replace(s, old, new, 1)
+	}
+	rep("\tif err = tx.write(); err != nil {", "\tverifKill(\"commit:before-write\")\n\tif err = tx.write(); err != nil {")
+	rep("\tif err = tx.writeMeta(); err != nil {", "\tverifKill(\"commit:before-meta\")\n\tif err = tx.writeMeta(); err != nil {")
+	rep("\t// Finalize the transaction.\n\ttx.close()", "\tverifKill(\"commit:after-meta\")\n\t// Finalize the transaction.\n\ttx.close()")
+	// no new import (the go command's module index does not see imports added by an overlay to a package of
+	// the module cache): the hook is a package-level variable of bbolt itself, set by the harness
+	s += "\n// VerifKillPoint is set by the verification harness (overlay; not part of bbolt).\nvar VerifKillPoint func(label string)\n\nfunc verifKill(label string) {\n\tif VerifKillPoint != nil {\n\t\tVerifKillPoint(label)\n\t}\n}\n"
+	if err := os.WriteFile(out, []byte(s), 0o644); err != nil {
+		fmt.Fprintln(os.Stderr, "instrument:", err)
+		os.Exit(3)
+	}
+}
+
 func main() {
+	if len(os.Args) == 4 && os.Args[1] == "-bbolt" {
+		instrumentBbolt(os.Args[2], os.Args[3])
+
+		return
+	}
 	if len(os.Args) < 3 {
 		fmt.Fprintln(os.Stderr, "usage: instrument <repo> <outdir> file.go…")
 		os.Exit(2)
